@@ -39,7 +39,7 @@ META = {
     "design_ref": "DESIGN.md §3 C07",
     "engines": ["sched"],
 }
-REQUIRED = ("appends", "reads", "reads_overlapping_a_partial_record", "schedules", "lines_hit", "process_rounds", "thread_rounds", "stalled_chunk_schedules")
+REQUIRED = ("appends", "reads", "reads_overlapping_a_partial_record", "schedules", "lines_hit", "process_rounds", "thread_rounds", "stalled_chunk_schedules", "construction_lines_hit")
 SHARDS = {"quick": 12, "thorough": 16}
 WATCHDOG_S = {"quick": 1200, "thorough": 4 * 3600}
 BUDGET_S = {"quick": 60, "thorough": 1800}
@@ -491,6 +491,87 @@ def enumerate_schedules(ctx: Ctx, s: sched.Sched, rng, lockname: str, a_kind: st
             ctx.violation({**facts, "kind": "two_lock_holders"}, f"{hm.max} workers held the journal lock at the same time", case)
         judge_round(ctx, path, events, backs, facts, case)
 
+def construct_schedules(ctx: Ctx, s: sched.Sched, lockname: str) -> None:
+    """Workers that START at the same time on a journal path that does not exist yet: worker A is preempted once at every line
+    of its JournalFileBackend constructor while worker B constructs its own backend, appends and reads."""
+    import optuna.storages.journal._file as F
+
+    cls = {"symlink": F.JournalFileSymlinkLock, "open": F.JournalFileOpenLock}[lockname]
+
+    def construct(path, out: dict, key: str, events: list, wk: int):
+        try:
+            out[key] = F.JournalFileBackend(path, cls(path))
+        except Exception as e:  # noqa: BLE001
+            events.append(("X", wk, "JournalFileBackend()", e))
+
+    def a_body(path, out, events):
+        construct(path, out, "A", events, 0)
+
+    def b_body(path, out, events):
+        construct(path, out, "B", events, 1)
+        b = out.get("B")
+        if b is None:
+            return
+        for n in range(2):
+            t0 = time.monotonic_ns()
+            try:
+                b.append_logs([{"w": 1, "n": n, "pad": "b" * 50}])
+                events.append(("A", 1, n, t0, time.monotonic_ns()))
+            except Exception as e:  # noqa: BLE001
+                events.append(("A", 1, n, t0, None))
+                events.append(("X", 1, "append_logs", e))
+        t0 = time.monotonic_ns()
+        try:
+            logs = b.read_logs(0)
+            events.append(("R", 1, 0, [(x.get("w"), x.get("n")) for x in logs], t0, time.monotonic_ns()))
+        except Exception as e:  # noqa: BLE001
+            events.append(("X", 1, "read_logs(0)", e))
+
+    uninstall_chunked_open()
+    d0 = mktemp_dir("vf-c07c-")
+    lines = list(s.trace_counts(lambda: construct(f"{d0}/j.log", {}, "A", [], 0)))
+    ctx.count("constructor_lines_enumerated", len(lines))
+    for target in lines:
+        d = mktemp_dir("vf-c07c-")
+        path = f"{d}/j.log"
+        out: dict = {}
+        events: list = []
+        s.pause_at(target[0], target[1], thread_name="A")
+        ta = threading.Thread(target=a_body, args=(path, out, events), name="A")
+        ta.start()
+        hit = s.reached.wait(1.0)
+        tb = threading.Thread(target=b_body, args=(path, out, events), name="B")
+        tb.start()
+        tb.join(5)
+        s.disarm()
+        ta.join(10)
+        tb.join(10)
+        ctx.count("construction_schedules")
+        if hit:
+            ctx.count("construction_lines_hit")
+        case = {"mode": "concurrent_construction", "lock": lockname, "paused_at": f"{target[0].co_qualname}:{target[1]}", "seed": ctx.seed}
+        ctx.case(case, hit)
+        facts = {"mode": "concurrent_construction", "lock": lockname}
+        if ta.is_alive() or tb.is_alive() or "A" not in out or "B" not in out:
+            bad = [e for e in events if e[0] == "X"]
+            if bad:
+                ctx.violation({**facts, "kind": "call_raised", "call": bad[0][2], "exc": type(bad[0][3]).__name__}, f"worker {bad[0][1]}: {bad[0][2]} raised {bad[0][3]!r}", case)
+            else:
+                ctx.count("schedules_hung")
+            continue
+        a, b = out["A"], out["B"]
+        for wk, bk, n in ((0, a, 0), (1, b, 2), (0, a, 1)):
+            t0 = time.monotonic_ns()
+            try:
+                logs = bk.read_logs(0)
+                events.append(("R", wk, 0, [(x.get("w"), x.get("n")) for x in logs], t0, time.monotonic_ns()))
+                t0 = time.monotonic_ns()
+                bk.append_logs([{"w": wk, "n": n, "pad": "c" * 30}])
+                events.append(("A", wk, n, t0, time.monotonic_ns()))
+            except Exception as e:  # noqa: BLE001
+                events.append(("X", wk, "follow-up call", e))
+        judge_round(ctx, path, events, [a, b], facts, case)
+
 
 def run(ctx: Ctx) -> None:
     ctx.rule = ("(a) thread rounds, (b) process rounds (one case each), (c) one schedule per (lock class, call pair, paused line, stalled-chunk flag, "
@@ -508,6 +589,9 @@ def run(ctx: Ctx) -> None:
         for ci, cell in enumerate(cells):
             if ctx.mine(ci):
                 enumerate_schedules(ctx, s, ctx.rng("cell", ci), *cell)
+        if ctx.shard[0] % 4 == 1 or ctx.shard[1] == 1:
+            for lk in ("symlink", "open"):
+                construct_schedules(ctx, s, lk)
         for i in range(ctx.pick(10, 120)):
             thread_round(ctx, s, ctx.rng("round", ctx.shard[0], i), i + 1000 * ctx.shard[0])
     finally:
@@ -527,6 +611,8 @@ def replay(ctx: Ctx, w: dict) -> None:
         if c["mode"] == "single_preemption":
             ctx.tier = "thorough"
             enumerate_schedules(ctx, s, ctx.rng("replay"), c["lock"], c["A"], c["B"], bool(c["B_stalled_after_first_chunk"]), bool(c["journal_aged"]))
+        elif c["mode"] == "concurrent_construction":
+            construct_schedules(ctx, s, c["lock"])
         elif c["mode"] == "threads":
             for sh in range(16):
                 thread_round(ctx, s, ctx.rng("round", sh, int(c["round"]) % 1000), int(c["round"]))
